@@ -175,6 +175,9 @@ func c11Gen(c *Ctx) (cs c11Case, cell string) {
 			key = []string{"k", "key with space", "é", "", "k=1"}[r.Intn(5)]
 		}
 		val := GenScalarText(r, cs.T.K, 0, 0)
+		if cs.T.K == KString && r.Chance(1, 4) {
+			val = r.Pick([]string{"\"x y\"", "\"", "\"open", "\"a\\tb\"", "\"\"", "\"q\" tail"})
+		}
 		switch r.Intn(8) {
 		case 0:
 			cs.Text = key
@@ -244,6 +247,12 @@ func c11Gen(c *Ctx) (cs c11Case, cell string) {
 	case 9: // arguments that start with a double quote (unquote left on): a Go string literal or nothing
 		cs.T = TypeSpec{K: KString, W: []Wrap{WScalar, WPtr, WSlice, WFunc1}[r.Intn(4)]}
 		cs.Unquote = true
+		if r.Chance(1, 5) {
+			// a map entry whose value part is quoted: the argument as a whole does not start with a quote
+			cs.T = TypeSpec{K: KString, W: WMap, MapKey: KString}
+			cs.Text = "k:" + r.Pick([]string{"\"hello world\"", "\"", "\"open", "\"a\\tb\"", "\"\""})
+			return cs, "map-entry-with-quoted-value"
+		}
 		if r.Chance(2, 3) {
 			cs.Text = []string{`"abc"`, `""`, `"`, `"a`, `a"`, `"a"b"`, "\"a\nb\"", "\"a\rb\"", "\"raw\ttab\"", `"a\tb"`, `"a\nb"`, `"\q"`, `"\x41"`, `"\xff"`, "\"\xff\"", "\"\xc3\"", `"é"`, `"\u00e9"`, `"\u12"`, `"a\\"`, `"a\"`, `"a\"b"`, `"'"`, `'a'`, "`a`", `"a" `, ` "a"`, `"世界"`, `"\0"`, `"\101"`, `"a\`, "\"\x00\"", `"😀"`, `"\U0001F600"`, `"\ud800"`}[r.Intn(35)]
 		} else {
